@@ -15,8 +15,8 @@ def sig_exp(vec, probs):
     return {"engine": "export", "op": vec["op"], "zero_dimensional_member": zero, "symptom": symptom}
 
 
-def exp_model(part, schemes, workers=2):
-    return Model("MC_Export.tla", {"Part": part, "Schemes": set(schemes), "Emit": True},
+def exp_model(part, schemes, workers=2, deep=False):
+    return Model("MC_Export.tla", {"Part": part, "Schemes": set(schemes), "Emit": True, "Deep": deep},
                  invariants=["Prop_C19", "Prop_C20", "EmitInv"], workers=workers, label=f"MC_Export/{part}/schemes{sorted(schemes)}")
 
 
@@ -40,7 +40,7 @@ def run_export_models(out, prop, models, stride=1):
 
 def check_C19(tier, seed):
     out = Outcome("C19", tier, seed)
-    run_export_models(out, "C19", [exp_model("export", {1, 2, 3})])
+    run_export_models(out, "C19", [exp_model("export", {1, 2, 3}, deep=(tier == "thorough"))])
     # the read-back clause on large instances (time grids / item lists far longer than any bounded model reaches)
     # (sizes chosen around representation limits: > 127 / > 255 items, 1 700 - 2 300 and > 32 767 entries)
     cases = [(150, 3), (20, 140), (150, 13), (128, 2)] if tier == "quick" else \
